@@ -41,7 +41,8 @@ NPROC = min(16, os.cpu_count() or 4)
 
 # quick tier: entries every traversal / decoder hangs on - all their retype faults are applied, not a sample
 IMPORTANT_KEYS = {"DescendantFonts", "Kids", "Contents", "Resources", "Font", "Encoding", "ToUnicode", "W", "Widths",
-                  "Length", "Filter", "DecodeParms", "Root", "Pages", "Prev", "XRefStm", "Index", "Encrypt", "ID"}
+                  "Length", "Filter", "DecodeParms", "Root", "Pages", "Prev", "XRefStm", "Index", "Encrypt", "ID",
+                  "N", "First"}
 REF_PARENTS = {"XObject", "Font", "Kids", "Contents", "DescendantFonts"}
 IMPORTANT_SITES_PER_ROLE = 1
 # quick tier: faults sampled per (seed, class, kind) stratum
@@ -62,8 +63,8 @@ def tla_seed(d):
                         % (tla_str(t["id"]), t["plen"], t["hdr"], ", ".join("<<%d, %d>>" % tuple(fl) for fl in t["fields"]))
                         for t in d["streams"])
     ents = ", ".join("[id |-> %s, form |-> %s]" % (tla_str(e["id"]), tla_str(e["form"])) for e in d["ents"])
-    return "[sites |-> {\n    %s},\n   streams |-> {%s},\n   ents |-> {%s},\n   flen |-> %d, enc |-> %s]" % (
-        sites, streams, ents, d["flen"], "TRUE" if d["enc"] else "FALSE")
+    return "[sites |-> {\n    %s},\n   streams |-> {%s},\n   ents |-> {%s},\n   flen |-> %d, enc |-> %s, fstride |-> %d]" % (
+        sites, streams, ents, d["flen"], "TRUE" if d["enc"] else "FALSE", d["fstride"])
 
 
 def enumerate_faults(ck, descs, variants=(0, 1), pstride=1, fstride=1, coverage=False, label="Faults"):
@@ -112,6 +113,8 @@ def sample_faults(faults, seed, descs):
     groups = collections.OrderedDict()
     out = []
     hdr = {d["name"]: {t["id"]: t["hdr"] for t in d["streams"]} for d in descs}
+    late_cuts = {d["name"]: {t["id"]: {t["plen"] - 1, t["plen"] - 2, t["plen"] * 3 // 4} for t in d["streams"] if t["plen"] > 8}
+                 for d in descs}
     # important entries: per seed, key and kind of owner (object / object stream / xref stream / trailer - different
     # code reads them) the first IMPORTANT_SITES_PER_ROLE site(s) in file order get the full treatment
     important = set()
@@ -133,7 +136,15 @@ def sample_faults(faults, seed, descs):
             parts = x["id"].split("/")
             if len(parts) >= 2 and (parts[-1] in IMPORTANT_KEYS or (len(parts) > 2 and parts[-2] in REF_PARENTS)):
                 cyc_sites.add((d["name"], x["id"]))
+    content_sites = {(d["name"], x["id"]) for d in descs for x in d["sites"] if x["cls"] == "content"}
     for s, fd in faults:
+        if fd["cls"] == "value" and (s, fd["site"]) in content_sites:
+            # entries of dictionaries written inside content streams (inline images, property lists): few, all applied
+            out.append((s, fd))
+            continue
+        if fd["kind"] == "empty" and (s, fd["site"]) in cyc_sites:
+            out.append((s, fd))            # the empty array / dictionary / string / name at every important entry
+            continue
         if fd["kind"] == "ref_self" and (s, fd["site"]) in cyc_sites:
             out.append((s, fd))
             continue
@@ -144,6 +155,11 @@ def sample_faults(faults, seed, descs):
             continue
         if fd["cls"] == "payload" and (fd["kind"] == "setfield" or (fd["kind"] == "truncate" and fd["pos"] < hdr[s].get(fd["site"], 0))):
             # embedded font programs: every cut inside the binary header / table directory, every header field value
+            out.append((s, fd))
+            continue
+        if fd["cls"] == "payload" and fd["kind"] == "truncate" and fd["pos"] in late_cuts[s].get(fd["site"], ()):
+            # every payload cut just before its end and at three quarters: nearly everything still decodes (an object
+            # stream keeps most of its members), which is where caches keyed on "complete" data stop working
             out.append((s, fd))
             continue
         if fd["kind"].startswith("off_"):
